@@ -169,6 +169,9 @@ class C18(Check):
             stream_fault = None
             if case_bits(case, "stream-fault") % 6 == 0 and mode != "generate":
                 stream_fault = dict(after=int(rng.integers(0, 6)), forever=bool(rng.random() < 0.5))
+            elif case_bits(case, "stream-fault") % 6 == 1:
+                stream_fault = dict(after=10**9, forever=False)  # progress display on a healthy stream
+            debug_log = case_bits(case, "debug-logging") % 4 == 0
             saved_defaults = []
 
             def run():
@@ -184,6 +187,14 @@ class C18(Check):
                 if "z" in cols:
                     names["redshift_name"] = "z"
                 kw = dict(chunksize=chunk, max_workers=workers)
+                if debug_log:
+                    # the application switched on debug logging (to a handler of its own) before creating the catalog
+                    import logging
+
+                    lg = logging.getLogger("yaw")
+                    saved_defaults.append(("logger", lg, lg.level, list(lg.handlers)))
+                    lg.setLevel(logging.DEBUG)
+                    lg.addHandler(logging.NullHandler())
                 if stream_fault is not None:
                     # progress display on a stream that stops accepting writes (closed terminal or pipe)
                     import io
@@ -221,6 +232,8 @@ class C18(Check):
                         kw.update(patch_num=P, probe_size=n)
                 else:
                     kw.update(patch_num=P, probe_size=n)
+                    if case_bits(case, "default-probe-size") % 2 == 0 and source != "random":  # (random sources refuse a probe larger than the catalog)
+                        kw.pop("probe_size")  # the default probe is larger than these inputs: still read chunk by chunk
                 # chunks handed on by the reader: observe the iterator protocol of the reader classes
                 from yaw.catalog import readers
 
@@ -268,9 +281,15 @@ class C18(Check):
                     # of the input until then is still judged
                     return dict(events=partial_log["log"].events, handed=partial_log["handed"], raised=f"{type(e).__name__}: {e}")
                 finally:
-                    for func, d in saved_defaults:
-                        func.__kwdefaults__.clear()
-                        func.__kwdefaults__.update(d)
+                    for item in saved_defaults:
+                        if item[0] == "logger":
+                            _, lg, level, handlers = item
+                            lg.setLevel(level)
+                            lg.handlers[:] = handlers
+                        else:
+                            func, d = item
+                            func.__kwdefaults__.clear()
+                            func.__kwdefaults__.update(d)
                     saved_defaults.clear()
 
             if workers > 1:
